@@ -477,3 +477,11 @@ def z1(ctx):
     return [ctx.ob(not bad and uses >= 1, fi.qualname, fi.where, "only the default time zone is attached", "tzinfo=%s" % tzparam,
                    "as_tz_aware_ts attaches a time zone of its own in `%s`: DATE / floating values are then not interpreted in the query's time zone, so "
                    "all-day events match or miss ranges near day boundaries" % (bad[0] if bad else "(no use of the parameter)"))]
+
+
+@rule("C11", "I2", floor=3, kind="S",
+      desc="queries answered from the index apply the same conditions as the naive evaluation (same obligations as "
+           "C10/X10): no extra shortcut in ComponentTimeRangeMatcher.match_indexes / ComponentFilter.match_indexes")
+def i2(ctx):
+    from .c10 import x10
+    return x10(ctx)
